@@ -269,15 +269,17 @@ def monitor (m : Mon) (coreOp : String) (isUpdate : Bool) (impl : String) (resta
      f1 ++ f2 ++ f3 ++ f4 ++ f5 ++ f6 ++ f7)
 
 structure DState where
-  st  : St := {}
-  mon : Mon := {}
+  st      : St := {}
+  mon     : Mon := {}
+  pending : Option Op := none     -- an update parked inside its storage write (it holds the manager's lock)
+  queued  : Option Op := none     -- an update issued meanwhile: blocked until the first one is done
 
 def freshState : St :=
   match initMgr ip {} with
   | (.ok m, store) => { mgr := m, store := store }
   | (.error _, store) => { store := store }
 
-def step (d : DState) (opLine : String) (impl : String) : DState × StepOut :=
+def stepPlain (d : DState) (opLine : String) (impl : String) : DState × StepOut :=
   let (core, fail) := splitFail (words opLine)
   let coreOp := " ".intercalate core
   match core with
@@ -315,6 +317,50 @@ def step (d : DState) (opLine : String) (impl : String) : DState × StepOut :=
       let (s, out) := PdModel.Rules.step d.st op fail
       let (mon, fails) := monitor d.mon coreOp true impl
       ({ st := s, mon := mon }, { model := s!"{outStr out} {obsStr s}", fails := fails })
+
+/-- replace the (possibly composite `a+b`) result of a released pair by one token for the monitor:
+    accepted if any of the two updates was -/
+def releaseImpl (impl : String) : String :=
+  match words impl with
+  | out :: rest =>
+    let parts := out.splitOn "+"
+    let tok := if parts.contains "ok" then "ok" else parts.headD out
+    " ".intercalate (tok :: rest)
+  | [] => impl
+
+/-- Overlapping updates.  `park <update>`: the update is started and held inside its first storage write (if it has
+    one); the manager's mutex is held for the whole update (lock facts, `rules_structure_facts`), so an update issued
+    meanwhile (`during <update>`) is `blocked` and runs after `release`: the outcome is the two steps in sequence. -/
+def step (d : DState) (opLine : String) (impl : String) : DState × StepOut :=
+  let (core, fail) := splitFail (words opLine)
+  match core with
+  | "park" :: rest =>
+    match d.pending, fail, parseOp rest with
+    | none, none, some op =>
+      if (PdModel.Rules.step d.st op (some (0, []))).2 == .errStorage then
+        ({ d with pending := some op }, { model := "parked" })
+      else
+        -- no storage write: the update completes at once
+        let (s, out) := PdModel.Rules.step d.st op none
+        let (mon, fails) := monitor d.mon (" ".intercalate rest) true impl
+        ({ st := s, mon := mon }, { model := s!"{outStr out} {obsStr s}", fails := fails })
+    | _, _, _ => (d, { model := "bad-op" })
+  | "during" :: rest =>
+    match d.pending, d.queued, fail, parseOp rest with
+    | some _, none, none, some op => ({ d with queued := some op }, { model := "blocked" })
+    | _, _, _, _ => (d, { model := "bad-op" })
+  | ["release"] =>
+    match d.pending with
+    | some op1 =>
+      let (s1, o1) := PdModel.Rules.step d.st op1 none
+      let (s2, outs) := match d.queued with
+        | some op2 => let (s2, o2) := PdModel.Rules.step s1 op2 none; (s2, s!"{outStr o1}+{outStr o2}")
+        | none => (s1, outStr o1)
+      let (mon, fails) := monitor d.mon "release" true (releaseImpl impl)
+      ({ st := s2, mon := mon }, { model := s!"{outs} {obsStr s2}", fails := fails })
+    | none => (d, { model := "bad-op" })
+  | ["reset"] => stepPlain { d with pending := none, queued := none } opLine impl
+  | _ => if d.pending.isSome then (d, { model := "bad-op" }) else stepPlain d opLine impl
 
 def main : IO UInt32 := runDriver ({} : DState) step
 
